@@ -905,6 +905,27 @@ func (m *Model) ruleTOMBXATTRS(r *Results) {
 	if n == 0 {
 		r.undecided(rule, "instance-floor", "-", "no tombstoning statement binds xattrs from Go")
 	}
+	// The with-meta writer replaces the row: the xattrs it stores are the caller's, never what the
+	// row had (a tombstone's system xattrs would otherwise survive a resurrection through it).
+	if m.A.WithMetaFn != nil {
+		e := m.newTermEval()
+		for _, wu := range m.writeUnits(e) {
+			if rootOf(wu.K) != m.A.WithMetaFn {
+				continue
+			}
+			t := wu.Cols["xattrs"]
+			if t.Kind != "bound" || t.Term == nil {
+				continue
+			}
+			kept := false
+			for _, alt := range t.Term.alts() {
+				if isScanOf(alt, "xattrs", false) {
+					kept = true
+				}
+			}
+			r.check(!kept, rule, m.declName(wu.K)+" / "+wu.Stmt.Shape()+" / the with-meta writer stores the caller's xattrs", m.instrPos(wu.Site.Call), "the xattrs bound into the row are not the row's own xattrs as read", "the with-meta writer can store the xattrs it read from the row ("+t.String()+"): writing a body over a tombstone through it then yields a live document that still carries the tombstone's xattrs")
+		}
+	}
 }
 
 // ---------------------------------------------------------------- R-ERR-OVERWRITE
@@ -1242,6 +1263,102 @@ func (m *Model) ruleOPTSCARRY(r *Results) {
 	}
 	if n < 5 {
 		r.undecided(rule, "instance-floor", "-", "only %d forwarded options arguments found", n)
+	}
+	// What an update callback hands back as a struct (body, xattrs to set, xattrs to delete) is
+	// what the write-back is given: the slices and maps among the write-back's arguments are
+	// fields of the callback's result, not something computed from them in between.
+	for _, lp := range m.rmwLoops() {
+		fn := lp.Fn
+		var cbRes ssa.Value
+		m.eachCall(fn, func(c ssa.CallInstruction) {
+			call, ok := c.(*ssa.Call)
+			if !ok || c.Common().StaticCallee() != nil || c.Common().IsInvoke() || call.Referrers() == nil {
+				return
+			}
+			if _, isBuiltin := c.Common().Value.(*ssa.Builtin); isBuiltin {
+				return
+			}
+			for _, ref := range *call.Referrers() {
+				if ex, ok := ref.(*ssa.Extract); ok {
+					if _, isStruct := ex.Type().Underlying().(*types.Struct); isStruct {
+						cbRes = ex
+					}
+				}
+			}
+		})
+		if cbRes == nil {
+			continue
+		}
+		isCbField := func(v ssa.Value) bool {
+			v = stripConv(v)
+			if f, ok := v.(*ssa.Field); ok {
+				return stripConv(f.X) == cbRes
+			}
+			if ld, ok := v.(*ssa.UnOp); ok && ld.Op == token.MUL {
+				if fa, ok := ld.X.(*ssa.FieldAddr); ok {
+					if al, ok := fa.X.(*ssa.Alloc); ok {
+						for _, st := range cellStores(al) {
+							if stripConv(st.Val) == cbRes {
+								return true
+							}
+						}
+					}
+				}
+			}
+			return false
+		}
+		for _, w := range lp.Writes {
+			site := w
+			if v, ok := lp.Via[w]; ok {
+				site = v
+			}
+			if site.Parent() != fn {
+				continue
+			}
+			usesCb, bad := false, ""
+			for _, a := range site.Common().Args {
+				switch a.Type().Underlying().(type) {
+				case *types.Slice, *types.Map:
+				default:
+					continue
+				}
+				seen := map[ssa.Value]bool{}
+				var leaf func(v ssa.Value)
+				leaf = func(v ssa.Value) {
+					v = stripConv(v)
+					if seen[v] {
+						return
+					}
+					seen[v] = true
+					switch x := v.(type) {
+					case *ssa.Phi:
+						for _, e := range x.Edges {
+							leaf(e)
+						}
+					case *ssa.Const:
+					case *ssa.Call:
+						// a helper that is handed a field of the callback's result and returns the same kind of value
+						for _, ca := range x.Common().Args {
+							if isCbField(ca) && types.Identical(ca.Type(), x.Type()) {
+								bad = m.instrPos(x)
+							}
+						}
+					default:
+						if isCbField(v) {
+							usesCb = true
+						}
+					}
+				}
+				leaf(a)
+			}
+			if usesCb || bad != "" {
+				callee := "?"
+				if f := site.Common().StaticCallee(); f != nil {
+					callee = f.Name()
+				}
+				r.check(bad == "", rule, m.declName(fn)+" / the callback's result reaches "+callee+" unchanged", m.instrPos(site), "the slices and maps handed to the write-back are fields of the callback's result", "a slice or map field of the callback's result is passed through a helper (at "+bad+") before it is handed to the write-back: what the callback asked for (e.g. the xattrs to delete) can be narrowed, and the call then reports success for a mutation that was applied in part")
+			}
+		}
 	}
 	// Nobody but the caller asks for the stored expiry to be kept: the package never sets a
 	// preserve-expiry option on its own (it only copies the caller's).
